@@ -219,6 +219,8 @@ impl<'source, Token: Logos<'source>> Lexer<'source, Token> {
     /// Panics if adding `n` to current offset would place the `Lexer` beyond the last byte,
     /// or in the middle of an UTF-8 code point (does not apply when lexing raw `&[u8]`).
     pub fn bump(&mut self, n: usize) {
+        #[cfg(logos_verif)]
+        crate::verif::emit(crate::verif::BUMP, n, self.token_end, 0);
         self.token_end += n;
 
         assert!(
@@ -250,6 +252,8 @@ where
     #[inline]
     fn next(&mut self) -> Option<Result<Token, Token::Error>> {
         self.token_start = self.token_end;
+        #[cfg(logos_verif)]
+        crate::verif::emit(crate::verif::NEXT, self.token_start, 0, 0);
 
         Token::lex(self)
     }
@@ -324,6 +328,13 @@ where
     where
         Chunk: source::Chunk<'source>,
     {
+        #[cfg(logos_verif)]
+        {
+            let res: Option<Chunk> = self.source.read(offset);
+            crate::verif::emit(crate::verif::READ, offset, Chunk::SIZE, res.is_some() as usize);
+            return res;
+        }
+        #[allow(unreachable_code)]
         self.source.read(offset)
     }
 
@@ -331,6 +342,8 @@ where
     #[inline]
     fn trivia(&mut self) {
         self.token_start = self.token_end;
+        #[cfg(logos_verif)]
+        crate::verif::emit(crate::verif::TRIVIA, self.token_start, 0, 0);
     }
 
     /// Set the current token to appropriate `#[error]` variant.
@@ -338,11 +351,15 @@ where
     #[inline]
     fn end_to_boundary(&mut self, offset: usize) {
         self.token_end = self.source.find_boundary(offset);
+        #[cfg(logos_verif)]
+        crate::verif::emit(crate::verif::ENDB, offset, self.token_end, 0);
     }
 
     #[inline]
     fn end(&mut self, offset: usize) {
         self.token_end = offset;
+        #[cfg(logos_verif)]
+        crate::verif::emit(crate::verif::END, offset, 0, 0);
     }
 
     #[inline]
